@@ -4,7 +4,8 @@ Hand-written executable model of the per-phase loops of a KWN step:
 * `Constraints.computeDTfromPSD / …NucleationRate / …Temperature / …Rcrit / …Volume`
   (kawin/precipitation/PrecipitationParameters.py 251-315), each as the code computes it,
 * `PrecipitateModel.getDt` (kawin/precipitation/KWNEuler.py 310-352),
-* `PrecipitateModel._calcNucleationSites` (KWNEuler.py 367-410): the competition sums.
+* `PrecipitateModel._calcNucleationSites` (KWNEuler.py 367-410): the competition sums,
+* `PrecipitateModel._updateParticleSizeDistribution` (KWNEuler.py 629-675): the per-phase update as `map`.
 
 The precipitate phases are a LIST of per-phase records; every rule is a loop over that list.
 `dtVolumeOld` is `computeDTfromVolume` BEFORE the repair of D-C11-dtvolume (the scalar `dV` was
@@ -79,6 +80,33 @@ structure SiteCfg (α : Type) where
   cornerN0 : α
   NA : α
   vmAlpha : α
+
+/-! ### _updateParticleSizeDistribution (KWNEuler.py 629-675): the per-phase part of a step
+
+`for p in range(len(self.phases)):` — PBM update with the new number densities, re-mesh, removal of classes
+below the thresholds, and LAST statement of the body `self.dissolutionIndex[p] = PBM[p].getDissolutionIndex(…)`.
+Everything the body reads and writes belongs to phase p, so the body is a function `Phase → Phase`
+(arbitrary here) and the update is `map`. -/
+
+/-- the loop body for one phase: `body` (PBM update, re-mesh, thresholds), then the dissolution index of the
+updated phase -/
+def updatePhase {α : Type} (body : Phase α → Phase α) (diss : Phase α → Nat) (ph : Phase α) : Phase α :=
+  let q := body ph
+  { q with dissIdx := diss q }
+
+/-- `_updateParticleSizeDistribution` as it is: the whole body inside the phase loop -/
+def updateAll {α : Type} (body : Phase α → Phase α) (diss : Phase α → Nat) (phases : List (Phase α)) :
+    List (Phase α) :=
+  phases.map (updatePhase body diss)
+
+/-- the indentation slip: the last statement dedented out of the loop runs once, with `p` = the LAST listed
+phase; all other phases keep the dissolution index they had -/
+def updateDedented {α : Type} (body : Phase α → Phase α) (diss : Phase α → Nat) (phases : List (Phase α)) :
+    List (Phase α) :=
+  let l := phases.map body
+  match l.getLast? with
+  | none => []
+  | some q => l.dropLast ++ [{ q with dissIdx := diss q }]
 
 section generic
 variable {α : Type} [Add α] [Sub α] [Mul α] [Div α] [Neg α] [Zero α] [One α]
